@@ -43,6 +43,7 @@ M = [
     ("m13", "C07", "src/replication/lattice.rs", "        if other.timestamp > self.timestamp {\n            other.clone()", "        if other.timestamp >= self.timestamp {\n            other.clone()", r"R07\.5"),
     ("m14", "C08", "src/replication/lattice.rs", "        self.time = self.time.max(other.time) + 1;", "        self.time = other.time + 1;", r"R08\.1"),
     ("m15", "C08", "src/production/replicated_shard_actor.rs", "                    self.replica_state.lamport_clock.update(&value.timestamp);\n", "", r"R08\.3"),
+    ("m51", "C08", "src/production/replicated_state.rs", "            for (key, value) in state {\n                let shard_idx = hash_key(&key);", "            for (key, value) in state {\n                if value.is_tombstone() {\n                    continue;\n                }\n                let shard_idx = hash_key(&key);", r"R(08|11)\."),
     ("m16", "C09", "src/streaming/wal_actor.rs", "                            if let Some(tx) = ack_tx {\n                                self.pending_acks.push(tx);\n                            }", "                            if let Some(tx) = ack_tx {\n                                let _ = tx.send(Ok(()));\n                            }", r"R09\.1"),
     ("m17", "C09", "src/streaming/wal_store.rs", "        self.file\n            .sync_all()\n            .map_err(|e| WalError::FsyncFailed(e.to_string()))", "        use std::io::Write;\n        self.file\n            .flush()\n            .map_err(|e| WalError::FsyncFailed(e.to_string()))", r"R09\.3"),
     ("m18", "C09", "src/streaming/wal.rs", "                self.current_writer = None;\n                self.unsynced_lost = true;\n                Err(e)", "                self.current_writer = None;\n                Err(e)", r"R09\.2"),
@@ -52,9 +53,12 @@ M = [
     ("m21", "C10", "src/streaming/wal.rs", "            let reader = match self.store.open_read(&name) {\n                Ok(r) => r,\n                Err(_) => continue, // Skip unreadable files\n            };", "            let reader = self.store.open_read(&name)?;", r"R10\.3"),
     ("m22", "C11", "src/streaming/recovery.rs", "            let segment_deltas = self.load_segment(segment_info).await?;\n            stats.bytes_read += segment_info.size_bytes;\n            stats.segments_loaded += 1;",
      "            let segment_deltas = match self.load_segment(segment_info).await {\n                Ok(d) => d,\n                Err(_) => continue,\n            };\n            stats.bytes_read += segment_info.size_bytes;\n            stats.segments_loaded += 1;", r"R11\.2"),
+    ("m50", "C11", "src/streaming/recovery.rs", "            stats.deltas_replayed += segment_deltas.len() as u64;\n            all_deltas.extend(segment_deltas);\n        }\n\n        Ok(RecoveredState {", "            stats.deltas_replayed += segment_deltas.len() as u64;\n            if segment_info.max_timestamp < segment_info.min_timestamp {\n                continue;\n            }\n            all_deltas.extend(segment_deltas);\n        }\n\n        Ok(RecoveredState {", r"R11\."),
     ("m23", "C12", "src/streaming/manifest.rs", "        self.store.put(&self.temp_key, &data).await?;\n\n        // Atomic rename (on POSIX systems)\n        self.store\n            .rename(&self.temp_key, &self.manifest_key)\n            .await?;",
      "        self.store.put(&self.manifest_key, &data).await?;", r"R12\.3"),
     ("m24", "C12", "src/streaming/persistence.rs", "        self.store.put(&segment_key, &data).await?;\n", "        let _ = self.store.put(&segment_key, &data).await;\n", r"R12\.(1|6)"),
+    ("m48", "C12", "src/streaming/persistence.rs", "        for delta in deltas {\n            writer.write_delta(delta)?;\n        }", "        for delta in deltas {\n            if delta.value.is_tombstone() && delta.value.expiry_ms.is_some() {\n                continue;\n            }\n            writer.write_delta(delta)?;\n        }", r"R12\.7"),
+    ("m49", "C12", "src/streaming/persistence.rs", "        for delta in deltas {\n            writer.write_delta(delta)?;\n        }", "        for delta in deltas.iter().skip(1) {\n            writer.write_delta(delta)?;\n        }", r"R12\.7"),
     ("m25", "C13", "src/streaming/compaction.rs", "        new_manifest\n            .segments\n            .retain(|s| !segment_ids.contains(&s.id));\n        new_manifest.add_segment(new_segment.clone());",
      "        let max_id = segment_ids.iter().copied().max().unwrap_or(0);\n        new_manifest.segments.retain(|s| s.id > max_id);\n        new_manifest.add_segment(new_segment.clone());", r"R13\.6"),
     ("m40", "C13", "src/streaming/compaction.rs", "Err(e) if e.kind() == std::io::ErrorKind::NotFound => {", "Err(e) if e.kind() == std::io::ErrorKind::TimedOut => {", r"R13\.5"),
